@@ -71,6 +71,10 @@ void DependencyInfoParser::parse() {
   while (cur != end) {
     const char* opcodeStart = cur;
     auto opcode = Opcode(*cur++);
+    if (cur == end) {
+      actions.error("missing operand", opcodeStart - data.data());
+      break;
+    }
     const char* operandStart = cur;
     while (*cur != '\0') {
       ++cur;
